@@ -21,7 +21,7 @@ RULE = ("case = one generated project (1-4 source files in four size classes, 1-
         "sites biased to scratch writes/renames/post-rename operations, thorough sweeps every k x action. "
         "An evaluation is one faulted run; it is non-trivial when the planned fault actually fired; distinct = distinct "
         "(world, k, action, errno).")
-PROBES = ["exdev_then_second_event", "aftermath_history", "two_fault_plan", "multi_drain", "kill_with_scratch_open", "fault_after_first_rename", "exdev_rename", "kill_mid_write"]
+PROBES = ["unseen_ops_fail", "exdev_then_second_event", "aftermath_history", "two_fault_plan", "multi_drain", "kill_with_scratch_open", "fault_after_first_rename", "exdev_rename", "kill_mid_write"]
 ASSUMPTIONS = ["process death = SIGKILL at an operation boundary or inside a write; only what the kernel has survives "
                "(no power-loss model)",
                "the fault-free twin defines the complete updated content (insertion offsets; ID values free)"]
@@ -137,6 +137,10 @@ def run_case(rng, idx, tier, ctx):
             viols += evaluate(wm, knobs, {"seed": base["seed"], "perm": base["perm"], "faults": [exdev, f2]}, ctx, twin)
             ctx.probes["exdev_then_second_event"] += 1
             ctx.nontrivial.add("%d.xd.%d.%s" % (idx, k2, f2["act"]))
+    uf = scen.unseen_ops_fault(rng, ops)
+    if uf:
+        viols += evaluate(wm, knobs, {"seed": base["seed"], "perm": base["perm"], "faults": [uf]}, ctx, twin)
+        ctx.probes["unseen_ops_fail"] += 1
     # aftermath histories: abnormal run, developer edits (the files get shorter), fault-free run on the same tree and TMPDIR
     ab = [(ph, f) for ph, f in common.candidates(rng, ops, phm, ["kill_before", "kill_after", "kill_mid", "fail"], False)
           if ph in ("scratch-write", "rename", "scratch-open", "after-rename", "read-after-mutation", "lock-write", "scratch-cleanup")]
